@@ -452,6 +452,7 @@ func c18StringPrograms() [][]*c18N {
 				[]*c18N{cRoute(cL("$ s = "+lit), cL("> s"))},
 				[]*c18N{cRoute(cL("$ s = "+lit), cL("% db: Database"), cL("$ t = s"), cL("> t")), cB("@ POST /next", cL("$ u = "+lit), cL("> u"))},
 				[]*c18N{cRoute(cL("> " + lit + " + " + lit))},
+				[]*c18N{cRoute(cL(`$ e = "q\"q"`), cL("$ t = "+lit), cL(`$ u = 'it\'s'`), cL("> [e, "+lit+", t]"))},
 				[]*c18N{cRoute(cLit("$ a =", "[", "]", cL(lit), cL("x"), cL(lit)), cLit(">", "{", "}", cL("k: "+lit)))},
 				[]*c18N{cRoute(cL("> f(" + lit + ", {k: " + lit + "})"))},
 				[]*c18N{cL("const S = " + lit), cB(": T", cL("f: str = "+lit))},
